@@ -871,6 +871,115 @@ pub fn c12_node_case(ctx: &Ctx, c: &C12Node) -> Vec<Viol> {
     out
 }
 
+/// The same kind of history against a switch-mode node: the scripted peer announces no claims, its routes at
+/// the node are addresses learned from the frames it sends (PeerAct::Announce(x) = a frame with source MAC x).
+pub fn c12_switch_case(ctx: &Ctx, c: &C12Node) -> Vec<Viol> {
+    ctx.eval();
+    let cj = || json!({"kind": "c12-switch", "case": c});
+    let mut out = vec![];
+    let mut sim: NetSim<Frame> = NetSim::new();
+    let mut cfg = base_config();
+    cfg.mode = Mode::Switch;
+    cfg.auto_claim = false;
+    sim.add_node(&cfg, false);
+    sim.add_node(&cfg, false); // a second, healthy peer so that flooding has somewhere to go
+    let a1 = sim.addr(1);
+    sim.connect(0, a1);
+    sim.settle();
+    let s_addr: SocketAddr = "[fd00::77]:7777".parse().unwrap();
+    let mut session = 0u8;
+    let mut peer = ScriptedPeer::new(s_addr, "test123", c12_info(50, 0));
+    if !peer.connect(&mut sim, 0) {
+        out.push(Viol::new("c12-node-setup", "scripted peer could not connect".to_string(), cj()));
+        return out;
+    }
+    let mut interesting = false;
+    for (i, a) in c.acts.iter().enumerate() {
+        let step = format!("step {} {:?}", i, a);
+        let is_peer = |sim: &NetSim<Frame>| sim.nodes[0].node.verif_peers().iter().any(|p| p.addr == s_addr);
+        match *a {
+            PeerAct::Announce(x) => {
+                if peer.connected && is_peer(&sim) {
+                    let f = eth_frame([0xff; 6], [2, 0x55, 0, 0, 0, x % 4], None, b"from scripted peer");
+                    peer.send(&mut sim, 0, vpncloud::messages::MESSAGE_TYPE_DATA, &f);
+                    sim.take_iface(0);
+                }
+            }
+            PeerAct::Restart(_) => {
+                session += 1;
+                peer = ScriptedPeer::new(s_addr, "test123", c12_info(50 + session, 0));
+                peer.connect(&mut sim, 0);
+            }
+            PeerAct::HalfRestart => {
+                session += 1;
+                let mut ghost = ScriptedPeer::new(s_addr, "test123", c12_info(50 + session, 0));
+                let mut buf = crate::sim::new_buf();
+                if ghost.crypto.initialize(&mut buf).is_ok() {
+                    sim.deliver_to(0, s_addr, buf.message().to_vec());
+                    sim.settle();
+                    sim.stray.clear();
+                }
+            }
+            PeerAct::Silent(n) => {
+                for _ in 0..(n % 400) {
+                    sim.tick();
+                    sim.stray.clear();
+                }
+            }
+            PeerAct::Close => {
+                if peer.connected {
+                    peer.send(&mut sim, 0, vpncloud::messages::MESSAGE_TYPE_CLOSE, &[]);
+                }
+            }
+            PeerAct::Traffic => {
+                for x in 0..4u8 {
+                    let f = eth_frame([2, 0x55, 0, 0, 0, x], [2, 0x66, 0, 0, 0, 1], None, b"to a learned address");
+                    let mut data = crate::sim::new_buf();
+                    data.set_length(f.len());
+                    data.message_mut().copy_from_slice(&f);
+                    let r = crate::sim::catch(|| sim.nodes[0].node.handle_interface_data(&mut data));
+                    sim.flush(0);
+                    sim.settle();
+                    sim.stray.clear();
+                    sim.take_iface(1);
+                    if let Ok(Err(e)) = r {
+                        if e.to_string().contains("not a peer") {
+                            out.push(Viol::new(
+                                "non-peer-selected-as-next-hop",
+                                format!("{}: a frame to a learned address was routed to a node that is not a peer: {}", step, e),
+                                cj(),
+                            ));
+                        }
+                    }
+                }
+            }
+        }
+        let gone = !is_peer(&sim);
+        if gone {
+            interesting = true;
+            peer.connected = false;
+            let (claims, cache) = sim.nodes[0].node.verif_table().verif_dump();
+            if claims.iter().any(|(p, _, _)| *p == s_addr) || cache.iter().any(|(_, p, _)| *p == s_addr) {
+                out.push(Viol::new(
+                    "routes-point-at-removed-peer",
+                    format!("{}: {} is no longer a peer but learned addresses still point at it: {:?}", step, s_addr, cache.iter().filter(|(_, p, _)| *p == s_addr).map(|(a, _, _)| a.to_string()).collect::<Vec<_>>()),
+                    cj(),
+                ));
+            }
+        }
+        if let Some((_, p, ctxt)) = sim.panics.first() {
+            out.push(Viol::new(format!("node-{}", p.sig()), format!("{}: node panicked: {} ({})", step, p.msg, ctxt), cj()));
+        }
+        if !out.is_empty() {
+            return out;
+        }
+    }
+    if interesting {
+        ctx.nontrivial(&("switch", format!("{:?}", c.acts)));
+    }
+    out
+}
+
 fn peer_act_strategy() -> impl Strategy<Value = PeerAct> {
     prop_oneof![
         4 => (0u8..16).prop_map(PeerAct::Announce),
@@ -901,6 +1010,20 @@ pub fn c12_node(ctx: &Ctx) {
     let n: u32 = ctx.tier.pick(1_000, 12_000);
     ctx.proptest("pt-c12-node", n, || proptest::collection::vec(peer_act_strategy(), 1..10), |acts| c12_node_case(ctx, &C12Node { acts: acts.clone() }));
     ctx.subspace("node level: proptest scripted-peer histories (announce / restart / half restart / silence / close / traffic)", n as u64, false);
+    // switch mode: routes are learned addresses
+    let sw: Vec<Vec<PeerAct>> = vec![
+        vec![PeerAct::Announce(1), PeerAct::Traffic, PeerAct::Close, PeerAct::Traffic],
+        vec![PeerAct::Announce(1), PeerAct::Announce(2), PeerAct::Silent(302), PeerAct::Traffic],
+        vec![PeerAct::Announce(3), PeerAct::HalfRestart, PeerAct::Silent(125), PeerAct::Traffic],
+        vec![PeerAct::Announce(0), PeerAct::Restart(0), PeerAct::Traffic, PeerAct::Close, PeerAct::Traffic],
+    ];
+    for sc in &sw {
+        let v = c12_switch_case(ctx, &C12Node { acts: sc.clone() });
+        ctx.report(v);
+    }
+    let n2: u32 = ctx.tier.pick(400, 6_000);
+    ctx.proptest("pt-c12-switch", n2, || proptest::collection::vec(peer_act_strategy(), 1..10), |acts| c12_switch_case(ctx, &C12Node { acts: acts.clone() }));
+    ctx.subspace("node level, switch mode: scripted peer without claims whose frames are learned, then close / silence / restart / failing handshake", n2 as u64 + 4, false);
 }
 
 // =====================================================================================
@@ -914,6 +1037,7 @@ pub fn replay(ctx: &Ctx, case: &Value) {
         Some("c11-node") => serde_json::from_value::<C11Node>(case["case"].clone()).map(|c| c11_node_case(ctx, &c)).unwrap_or_default(),
         Some("c11-stats") => c11_stats_file(ctx),
         Some("c12-node") => serde_json::from_value::<C12Node>(case["case"].clone()).map(|c| c12_node_case(ctx, &c)).unwrap_or_default(),
+        Some("c12-switch") => serde_json::from_value::<C12Node>(case["case"].clone()).map(|c| c12_switch_case(ctx, &c)).unwrap_or_default(),
         _ => vec![],
     };
     ctx.report(v);
